@@ -5,6 +5,7 @@ import (
 	"os"
 	"path/filepath"
 	"strings"
+	"time"
 	"testing"
 
 	"verif/harness/core"
@@ -24,8 +25,31 @@ func TestReplay(t *testing.T) {
 	if list == "" {
 		t.Skip("VERIF_REPLAY not set")
 	}
+	limit := 120 * time.Second
+	if v := os.Getenv("VERIF_REPLAY_TIMEOUT"); v != "" {
+		if d, err := time.ParseDuration(v); err == nil {
+			limit = d
+		}
+	}
 	for _, path := range filepath.SplitList(list) {
-		rec, _, err := core.Replay(path)
+		type result struct {
+			rec *core.Rec
+			err error
+		}
+		ch := make(chan result, 1)
+		go func() {
+			rec, _, err := core.Replay(path)
+			ch <- result{rec, err}
+		}()
+		var rec *core.Rec
+		var err error
+		select {
+		case res := <-ch:
+			rec, err = res.rec, res.err
+		case <-time.After(limit):
+			fmt.Printf("REPLAY %s FAIL the case did not return within %v (hang)\n", path, limit)
+			continue
+		}
 		switch {
 		case err != nil:
 			fmt.Printf("REPLAY %s ERROR %v\n", path, err)
